@@ -27,12 +27,16 @@ Evaluated(order, nPrior) == IF nPrior = 0 THEN order ELSE Prefix(order, nPrior)
 \* ratio[p] stands for exp(ll[p] - max ll): the machinery computes it; the spec constrains it
 RatioSane(lls, ratio) ==
   /\ Len(ratio) = Len(lls)
-  /\ (Len(lls) > 0 /\ (\A p \in DOMAIN lls : ~IsNaN(lls[p])) /\ IsFinite(lls[ArgMax(lls)])) =>
-       /\ ratio[ArgMax(lls)] = One
-       /\ \A p \in DOMAIN lls : Le(ratio[p], One) /\ Ge(ratio[p], Zero)
-       /\ (Len(lls) <= 64 => \A p, q \in DOMAIN lls : Le(lls[p], lls[q]) => Le(ratio[p], ratio[q]))
-       /\ \A p \in DOMAIN lls : lls[p] = lls[ArgMax(lls)] => ratio[p] = ratio[ArgMax(lls)]
-       /\ \A p \in DOMAIN lls : (lls[p] = NegInf /\ IsFinite(lls[ArgMax(lls)])) => ratio[p] = Zero
+  /\ (Len(lls) > 0 /\ (\A p \in DOMAIN lls : ~IsNaN(lls[p]))) =>
+       LET m == ArgMax(lls)            \* evaluated once (ArgMax is quadratic)
+           top == lls[m]
+           rtop == ratio[m]
+       IN IsFinite(top) =>
+            /\ rtop = One
+            /\ \A p \in DOMAIN lls : Le(ratio[p], One) /\ Ge(ratio[p], Zero)
+            /\ (Len(lls) <= 64 => \A p, q \in DOMAIN lls : Le(lls[p], lls[q]) => Le(ratio[p], ratio[q]))
+            /\ \A p \in DOMAIN lls : lls[p] = top => ratio[p] = rtop
+            /\ \A p \in DOMAIN lls : lls[p] = NegInf => ratio[p] = Zero
 
 \* THE acceptance rule: keep position p iff exp(ll_p - max) > u_p
 Accept(ratio, u) == SelectPos(Len(ratio), LAMBDA p : Gt(ratio[p], u[p]), 1)
